@@ -52,6 +52,9 @@ EXTRA_TRUSTED = [
     "CPython 3.12 isinstance / in / comparison operators / len / re / callable: the atomic predicates are "
     "oracles; 'gt really uses >' etc. is checked differentially (documented predicate run directly vs. the "
     "validator), not proved",
+    "harness/translate_c18.py: the translator from the __call__ bodies / constructor functions to the combinators "
+    "of C18/TieLib.v (its reading of Python: evaluation order, try/except/else, for loops, `value[key]` inside "
+    "`for key in value`, field roles inferred from use); message formatting is assumed not to raise",
     "harness value expansion: iteration order, members and value[key] of every container value are recorded by "
     "iterating it once in the harness; values are assumed stateless (re-iterable, deterministic)",
 ]
@@ -64,6 +67,17 @@ ASSUMPTIONS = [
     "KeyError, IndexError, RuntimeError, AttributeError); exc_types of not_ are drawn from that slice",
     "for the hash clause: equal hashable arguments have equal hashes (Python's hash contract)",
 ]
+
+
+def pre_build():
+    # Gen/C18_calls.v is regenerated from the current source text (fresh checkouts have no Gen files)
+    from . import translate_c18
+    translate_c18.regenerate()
+
+
+def translated_tie():
+    from . import translate_c18
+    return translate_c18.regenerate(), "theories/C18/Tie.vo"
 
 
 # --------------------------------------------------------------------------------------
